@@ -175,6 +175,27 @@ def h_errors(E, case):
         return type(e).__name__
 
 
+DUMMY_NAMES = {'default-function': 'sin', 'another-default-function': 're', 'user-function': 'myf', 'constant': 'pi', 'user-constant': 'kk', 'variable': 'x',
+               'number-like': '2n', 'fresh': 'q', 'primed': "n'", 'underscored': 'n_1', 'braces (not a plain variable name)': 'n_{1}'}
+RESTRICTIONS = {'none': {}, 'blacklist': dict(blacklist=['sin', 'cos', 're']), 'whitelist': dict(whitelist=['cos']), 'whitelist-none': dict(whitelist=[None])}
+
+
+def h_dummy_names(E, name_kind, restriction):
+    """a summation variable that already has a meaning (function - permitted or not -, constant, variable) is refused whatever the function restrictions
+    of the grader are; a free name is accepted and the sum graded"""
+    from mitxgraders.exceptions import MITxError, StudentFacingError, ConfigError
+    g, SX, SD = _grader(E, user_functions={'myf': lambda t: t}, user_constants={'kk': 3.0}, **RESTRICTIONS[restriction])
+    v = DUMMY_NAMES[name_kind]
+    free = name_kind in ('fresh', 'primed', 'underscored')
+    try:
+        r = g(None, ['1', '4', 'x*%s+%s^2' % (v, v), v])
+    except MITxError as e:
+        E.check('meaningful-or-invalid-dummy-name-refused-free-name-accepted', isinstance(e, StudentFacingError) and not isinstance(e, ConfigError) and not free)
+        return type(e).__name__
+    E.check('meaningful-or-invalid-dummy-name-refused-free-name-accepted', free and r['ok'] is True)
+    return 'graded'
+
+
 LIMITS = {'2': 2, '-3': -3, '5/2': 2.5, '-1.5': -1.5, '1/2': 0.5, 'infty': INF, '-infty': -INF, '4.0': 4, '2+x-x': 2, '1/2+x-x': 0.5}
 
 
@@ -238,6 +259,9 @@ def harnesses(tier):
         for wrong in (None, 'lower', 'summand'):
             add(h_positions, 'positions', dict(subset=''.join('1' if b else '0' for b in subset), order=sum(subset), wrong=wrong), 'subset of student-entered fields')
             hs[-1].params = (subset, sum(subset), wrong)
+    for nk in DUMMY_NAMES:
+        for rk in RESTRICTIONS:
+            add(h_dummy_names, 'dummy_names', dict(name=nk, restriction=rk), 'symbolic samples')
     for lo in LIMITS:
         for hi in LIMITS:
             add(h_limit_pairs, 'limit_pairs', dict(lo=lo, hi=hi), 'student-typed limits; symbolic samples')
